@@ -36,12 +36,11 @@ structure Rule where
   styles : List StyleDecl
 deriving Repr
 
-inductive AddRes | ok (rules : List Rule) | err | panic | hang
+inductive AddRes | ok (rules : List Rule) | err | hang
 deriving Repr
 
 def doAddCss (css : Inp) : AddRes :=
   match parseStylesheet css with
-  | .panic => .panic
   | .hang => .hang
   | .err => .err
   | .ok rss =>
